@@ -41,7 +41,6 @@ from gen import cprog  # noqa: E402
 CORPUS = os.path.join(common.VERIF, "corpus", "C10")
 GCC = "gcc -std=c11 -pedantic-errors -fsyntax-only"
 CLANG = "clang-14 -std=c11 -pedantic-errors -fsyntax-only"
-FID_COND_CONST_LVALUE = "cond-const-lvalue"
 DIAG_ANY = re.compile(r"^[^:\n]+:\d+:\d+: error: \S|^[^:\n ]+: \S", re.M)
 
 
@@ -140,6 +139,8 @@ class SiteMatcher:
         rows = []
         for s in sites:
             rx, lit = fmt_regex(s)
+            if s[1] in ("tokencheck", "expect") and "%s" in s[2]:
+                lit = 4         # the generic wrapper: only when no calling site's text matches
             if rx and lit >= 4:
                 rows.append((lit, re.compile(rx), s))
         rows.sort(key=lambda r: -r[0])
@@ -868,10 +869,17 @@ def m_eq_nullconst(L, rng):
     m = re.match(r"^(\t+)out\(\(long\)\((.*)\)\);$", L[i])
     op = rng.choice(["==", "!="])
     cast = rng.choice(["(double)", "(long)", "(float)", "(unsigned char)"])
-    a, b = "(void *)0", "%s(%s)" % (cast, m.group(2))
+    # `+ c10_nc`: not a constant (cproc folds more than C11's integer constant expressions, and a folded 0
+    # is a null pointer constant for it)
+    a, b = "(void *)0", "(%s(%s) + c10_nc)" % (cast, m.group(2))
     if rng.random() < 0.5:
         a, b = b, a
-    return L[:i] + ["%sout((long)(%s %s %s));" % (m.group(1), a, op, b)] + L[i + 1:], "(void *)0 %s arithmetic operand" % op
+    blanks = [k for k, ln in enumerate(L) if ln == ""]
+    if not blanks or blanks[0] > i:
+        return None
+    k = blanks[0]
+    return L[:k] + ["static long c10_nc;"] + L[k:i] + ["%sout((long)(%s %s %s));" % (m.group(1), a, op, b)] + L[i + 1:], \
+        "(void *)0 %s arithmetic operand" % op
 
 
 def m_ptr_sub_incomplete(L, rng):
@@ -1012,8 +1020,7 @@ def run_mutations(ck, bt, cc, hosts, judge, sitekeys, per_kind):
         name, text, what = jobs[i]
         stats[name]["gcc_and_clang_reject"] += 1
         gmsg = [ln for ln in rg[i][1].splitlines() if "error" in ln][:1]
-        # `&(1 ? a : b)`: condexpr returns the selected operand itself when the condition is constant, still an lvalue
-        fid = FID_COND_CONST_LVALUE if name == "addr-of-rvalue" and "&(1 ? " in what else None
+        fid = None
         ok = judge.result("mutation", name + ("/" + fid if fid else ""), what, "rewrite", text, r, oracle=True, fid=fid,
                           extra={"rewrite": what, "gcc": gmsg[0][-200:] if gmsg else ""})
         stats[name]["cproc_rejects"] += ok
